@@ -37,6 +37,16 @@ theorem C19_gen_responseNotClosedUnread : Generated.singleRequestClosesResponseU
     parser, no exception argument. -/
 theorem C19_gen_errorBodyUnused : Generated.singleRequestErrorBodyUnused = some true := by decide
 
+/-- The bytes of a 200 reply are decoded strictly (no `errors="replace"`/`"ignore"` anywhere between the socket and the
+    JSON parser): `Beh.badBody200` — a body that is not valid UTF-8 — ends in `.other "decode"`, never in a result
+    (`C19_bad_body_raises`). -/
+theorem C19_gen_replyDecodingStrict : Generated.replyDecodingStrict = some true := by decide
+
+/-- The 200 branch returns what `parse_response` returned and raises nothing itself: the model's `.okBody _ fr` ends in
+    `.result tok` for EVERY `OkText` (`C19_ok_body_own_result`) — there is no test on the text (its length in characters
+    against the Content-Length in bytes, …) that could refuse a healthy reply. -/
+theorem C19_gen_successReturnsParsed : Generated.singleRequestSuccessReturnsParsed = some true := by decide
+
 theorem C19_gen_emptyBodyNone : Generated.runRequestEmptyBodyNone = some true := by decide
 
 end JRV.Props
